@@ -148,6 +148,43 @@ pub open spec fn queue_ok(q: Seq<usize>, done: Seq<bool>, lvl: Seq<int>, l: int,
     &&& nodup(q)
     &&& forall|i: int| 0 <= i < q.len() ==> q[i] < n && lvl[q[i] as int] == l && !done[q[i] as int]
 }
+// inserting a fresh node of level l at either end of a queue of level-l nodes keeps it a queue and keeps every
+// level-l node in it (written for both ends so that push_front / push_back are interchangeable)
+proof fn lemma_queue_insert(q0: Seq<usize>, q1: Seq<usize>, x: usize, done: Seq<bool>, lvl: Seq<int>, l: int, n: int)
+    requires
+        q1 =~= seq![x].add(q0) || q1 =~= q0.push(x),
+        x < n, n == lvl.len(), n == done.len(), lvl[x as int] == l, !done[x as int],
+        nodup(q0),
+        forall|i: int| 0 <= i < q0.len() ==> q0[i] < n && #[trigger] q0[i] != x && lvl[q0[i] as int] == l && !done[q0[i] as int],
+        forall|v: int| 0 <= v < n && v != x && lvl[v] == l ==> mem(q0, v),
+    ensures
+        queue_ok(q1, done, lvl, l, n),
+        forall|v: int| 0 <= v < n && lvl[v] == l ==> mem(q1, v),
+{
+    if q1 =~= seq![x].add(q0) {
+        assert forall|i: int, j: int| 0 <= i < j < q1.len() implies q1[i] != q1[j] by {
+            if i == 0 { assert(q1[j] == q0[j - 1]); } else { assert(q1[i] == q0[i - 1] && q1[j] == q0[j - 1]); }
+        }
+        assert forall|i: int| 0 <= i < q1.len() implies q1[i] < n && lvl[q1[i] as int] == l && !done[q1[i] as int] by {
+            if i > 0 { assert(q1[i] == q0[i - 1]); }
+        }
+        assert forall|v: int| 0 <= v < n && lvl[v] == l implies mem(q1, v) by {
+            if v == x { assert(q1[0] == x); }
+            else { let i = choose|i: int| 0 <= i < q0.len() && q0[i] == v; assert(q1[i + 1] == v); }
+        }
+    } else {
+        assert forall|i: int, j: int| 0 <= i < j < q1.len() implies q1[i] != q1[j] by {
+            if j == q0.len() { assert(q1[i] == q0[i]); } else { assert(q1[i] == q0[i] && q1[j] == q0[j]); }
+        }
+        assert forall|i: int| 0 <= i < q1.len() implies q1[i] < n && lvl[q1[i] as int] == l && !done[q1[i] as int] by {
+            if i < q0.len() { assert(q1[i] == q0[i]); }
+        }
+        assert forall|v: int| 0 <= v < n && lvl[v] == l implies mem(q1, v) by {
+            if v == x { assert(q1[q0.len() as int] == x); }
+            else { let i = choose|i: int| 0 <= i < q0.len() && q0[i] == v; assert(q1[i] == v); }
+        }
+    }
+}
 // a finished (or in-progress) group of level l
 pub open spec fn group_ok(g: Seq<usize>, done: Seq<bool>, lvl: Seq<int>, l: int, n: int) -> bool {
     &&& nodup(g)
@@ -1009,15 +1046,13 @@ impl Dag {
         {
             let degree = in_degree[node];
             if degree == 0 && self.visibility[node] {
-               @proof {
-                   @lvl = lvl.update(node as int, 0);
-                   @let w0 = work@;
-                   @assert forall|v: int| 0 <= v < n && lvl[v] == 0 implies mem(w0.push(node), v) by {
-                       @if v == node { assert(w0.push(node)[w0.len() as int] == node); }
-                       @else { let i = choose|i: int| 0 <= i < w0.len() && w0[i] == v; assert(w0.push(node)[i] == v); }
-                   @}
-               @}
+               @let ghost w0 = work@;
+               @proof { lvl = lvl.update(node as int, 0); }
                 work.push_back(node);
+               @proof {
+                   @assert(work@ =~= seq![node].add(w0) || work@ =~= w0.push(node));
+                   @lemma_queue_insert(w0, work@, node, done, lvl, 0, n);
+               @}
             }
         }
        @proof {
@@ -1159,22 +1194,13 @@ impl Dag {
                            @assert forall|u: int, j: int| 0 <= u < n && 0 <= j < adj[u].len() implies edge_inv(adj, vis, done, lvl, u, j) by {
                                @assert(edge_inv(adj, vis, done, lvl0, u, j));
                            @}
-                           @let q1 = seq![n2].add(q0);
-                           @assert forall|v: int| 0 <= v < n && lvl[v] == lv + 1 implies mem(q1, v) by {
-                               @if v == n2 { assert(q1[0] == n2); }
-                               @else { let i = choose|i: int| 0 <= i < q0.len() && q0[i] == v; assert(q1[i + 1] == v); }
-                           @}
-                           @assert(queue_ok(q1, done, lvl, lv + 1, n)) by {
-                               @assert forall|i: int, j: int| 0 <= i < j < q1.len() implies q1[i] != q1[j] by {
-                                   @if i == 0 { assert(q1[j] == q0[j - 1]); } else { assert(q1[i] == q0[i - 1] && q1[j] == q0[j - 1]); }
-                               @}
-                               @assert forall|i: int| 0 <= i < q1.len() implies q1[i] < n && lvl[q1[i] as int] == lv + 1 && !done[q1[i] as int] by {
-                                   @if i > 0 { assert(q1[i] == q0[i - 1]); }
-                               @}
-                           @}
                        @}
                         next_work.push_front(n2);
-                       @assert(next_work@ =~= seq![n2].add(q0));
+                        // shape-independent: the new node may go to either end of the next queue
+                       @proof {
+                           @assert(next_work@ =~= seq![n2].add(q0) || next_work@ =~= q0.push(n2));
+                           @lemma_queue_insert(q0, next_work@, n2, done, lvl, lv + 1, n);
+                       @}
                     }
                    @proof { kk = kk + 1; }
                 }
